@@ -396,6 +396,7 @@ func c10(c *eng.Ctx) {
 	c.Rule("R4", "deleted names stop resolving: on the lister's NotFound edge the sync handler always reaches a cleanup that looks the cluster up under the lower-cased object name, iterates all of its LoadServerNames() without leaving the loop early and deletes each owned name; manager.Delete/DeleteWithStop remove the lower-cased key from the table on every path", 5)
 	c.Rule("R5", "TLS material of the same cluster: ClientCAs/Certificates copied into the per-handshake tls.Config are the fields of LoadTLSConfig() of the cluster returned by Manager.Get(SNI host); SNIVerifyOptions returns LoadVerifyOptions() of Get(HostWithoutPort(host)); both loaders read the receiver's own secure-serving config, which is only stored into the receiver's own slot", 8)
 
+	c10R6(c)
 	c10R2p(x)
 	c10R1(x)
 	c10R1h(x)
